@@ -166,4 +166,420 @@ theorem splitC_length (p : List Char) : (splitC p).length = p.count '/' + 1 := b
         simp [List.count_cons, this] at ih ⊢
         omega
 
+/-! ## well-formed trees: every entry's parent is a directory -/
+
+/-- the tree invariant: whatever exists has a directory as its parent (prefix-closed path map) -/
+def WF (fs : Fs) : Prop := ∀ p e, get fs p = some e → get fs p.dropLast = some .dir
+
+theorem get_nil (fs : Fs) : get fs [] = some .dir := by simp [get]
+
+theorem wf_nil : WF [] := by
+  intro p e h
+  by_cases hp : p = []
+  · subst hp; simp [get]
+  · simp [get, hp, find] at h
+
+theorem dropLast_ne_self {p : Path} (hp : p ≠ []) : p.dropLast ≠ p := by
+  intro h
+  have := congrArg List.length h
+  simp at this
+  have : p.length ≠ 0 := by simpa using hp
+  omega
+
+theorem append_ne_nil (p : Path) (n : Name) : p ++ [n] ≠ [] := by simp
+
+theorem wf_set_dir {fs : Fs} (h : WF fs) {k : Path} (hk : k ≠ [])
+    (hpar : get fs k.dropLast = some .dir) : WF (set fs k .dir) := by
+  intro p e hp
+  rw [get_set _ _ _ _ hk] at hp ⊢
+  by_cases h1 : p = k
+  · subst h1
+    simp [dropLast_ne_self hk, hpar]
+  · simp only [h1, if_false] at hp
+    by_cases h2 : p.dropLast = k
+    · simp [h2]
+    · simp only [h2, if_false]; exact h p e hp
+
+theorem wf_set_file {fs : Fs} (h : WF fs) {k : Path} (hk : k ≠ []) (b : List UInt8)
+    (hpar : get fs k.dropLast = some .dir) (hnd : get fs k ≠ some .dir) : WF (set fs k (.file b)) := by
+  intro p e hp
+  rw [get_set _ _ _ _ hk] at hp ⊢
+  by_cases h1 : p = k
+  · subst h1
+    simp [dropLast_ne_self hk, hpar]
+  · simp only [h1, if_false] at hp
+    by_cases h2 : p.dropLast = k
+    · exact absurd (h2 ▸ h p e hp) hnd
+    · simp only [h2, if_false]; exact h p e hp
+
+theorem wf_erase {fs : Fs} (h : WF fs) {k : Path} (hk : k ≠ [])
+    (hch : ∀ q, q ≠ [] → q.dropLast = k → get fs q = none) : WF (erase fs k) := by
+  intro p e hp
+  rw [get_erase _ _ _ hk] at hp ⊢
+  by_cases h1 : p = k
+  · simp [h1] at hp
+  · simp only [h1, if_false] at hp
+    by_cases h2 : p.dropLast = k
+    · have hpn : p ≠ [] := by
+        intro hn; subst hn; simp at h2; exact hk h2
+      rw [hch p hpn h2] at hp; cases hp
+    · simp only [h2, if_false]; exact h p e hp
+
+/-- with a file (or nothing) at `k`, nothing exists below `k` -/
+theorem no_children_of_not_dir {fs : Fs} (h : WF fs) {k : Path} (hnd : get fs k ≠ some .dir) :
+    ∀ q, q ≠ [] → q.dropLast = k → get fs q = none := by
+  intro q _ hq
+  cases hg : get fs q with
+  | none => rfl
+  | some e => exact absurd (hq ▸ h q e hg) hnd
+
+/-! ## children -/
+
+theorem find_some_mem {fs : Fs} {q : Path} {e : Entry} (h : find fs q = some e) : (q, e) ∈ fs := by
+  induction fs with
+  | nil => simp [find] at h
+  | cons x r ih =>
+    obtain ⟨k, e'⟩ := x
+    by_cases hk : k = q
+    · simp [find, hk] at h; subst hk; subst h; simp
+    · simp [find, hk] at h; exact List.mem_cons_of_mem _ (ih h)
+
+theorem mem_find_ne_none {fs : Fs} {q : Path} {e : Entry} (h : (q, e) ∈ fs) : find fs q ≠ none := by
+  induction fs with
+  | nil => simp at h
+  | cons x r ih =>
+    obtain ⟨k, e'⟩ := x
+    by_cases hk : k = q
+    · simp [find, hk]
+    · have : (q, e) ∈ r := by
+        rcases List.mem_cons.mp h with h1 | h1
+        · exact absurd (congrArg Prod.fst h1).symm hk
+        · exact h1
+      simp [find, hk, ih this]
+
+/-- `readdir`: the names listed for `d` are exactly the names `n` with something at `d/n` -/
+theorem mem_children (fs : Fs) (d : Path) (n : Name) :
+    n ∈ children fs d ↔ get fs (d ++ [n]) ≠ none := by
+  have hne : d ++ [n] ≠ [] := by simp
+  simp only [get, hne, if_false]
+  constructor
+  · intro h
+    simp only [children, List.mem_filterMap] at h
+    obtain ⟨x, hx, hm⟩ := h
+    obtain ⟨q, e⟩ := x
+    simp only at hm
+    cases hl : q.getLast? with
+    | none => simp [hl] at hm
+    | some m =>
+      simp only [hl] at hm
+      by_cases hd : q.dropLast = d
+      · simp only [hd, if_true, Option.some.injEq] at hm
+        have hq : q = d ++ [n] := by
+          obtain ⟨ys, rfl⟩ := List.getLast?_eq_some_iff.1 hl
+          simp at hd; rw [hd, hm]
+        exact mem_find_ne_none (hq ▸ hx)
+      · simp [hd] at hm
+  · intro h
+    cases hf : find fs (d ++ [n]) with
+    | none => exact absurd hf h
+    | some e =>
+      simp only [children, List.mem_filterMap]
+      exact ⟨(d ++ [n], e), find_some_mem hf, by simp⟩
+
+theorem children_nil_iff (fs : Fs) (d : Path) :
+    children fs d = [] ↔ ∀ q, q ≠ [] → q.dropLast = d → get fs q = none := by
+  constructor
+  · intro h q hq hd
+    have hl : q = d ++ [q.getLast hq] := by
+      rw [← hd]; exact (List.dropLast_concat_getLast hq).symm
+    cases hg : get fs q with
+    | none => rfl
+    | some e =>
+      have : q.getLast hq ∈ children fs d := (mem_children fs d _).2 (by rw [← hl, hg]; simp)
+      rw [h] at this; simp at this
+  · intro h
+    apply List.eq_nil_iff_forall_not_mem.2
+    intro n hn
+    have := (mem_children fs d n).1 hn
+    exact this (h (d ++ [n]) (by simp) (by simp))
+
+/-! ## path resolution -/
+
+theorem walk_found {fs : Fs} (h : WF fs) {comps : List Name} :
+    ∀ {cur p e}, get fs cur = some .dir → walk fs cur comps = .found p e → get fs p = some e := by
+  induction comps with
+  | nil => intro cur p e hc hw; simp [walk] at hw; obtain ⟨rfl, rfl⟩ := hw; exact hc
+  | cons c rest ih =>
+    intro cur p e hc hw
+    rw [walk] at hw
+    split at hw
+    · exact ih hc hw
+    · split at hw
+      · split at hw
+        · cases hw
+        · exact ih (h cur _ hc) hw
+      · split at hw
+        · cases hw
+        · split at hw
+          · split at hw <;> cases hw
+          · rename_i hd; exact ih hd hw
+          · rename_i b hf
+            split at hw
+            · simp at hw; obtain ⟨rfl, rfl⟩ := hw; exact hf
+            · cases hw
+
+theorem walk_missing {fs : Fs} (h : WF fs) {comps : List Name} :
+    ∀ {cur par n sl}, get fs cur = some .dir → walk fs cur comps = .missing par n sl →
+      get fs (par ++ [n]) = none ∧ get fs par = some .dir := by
+  induction comps with
+  | nil => intro cur par n sl hc hw; simp [walk] at hw
+  | cons c rest ih =>
+    intro cur par n sl hc hw
+    rw [walk] at hw
+    split at hw
+    · exact ih hc hw
+    · split at hw
+      · split at hw
+        · cases hw
+        · exact ih (h cur _ hc) hw
+      · split at hw
+        · cases hw
+        · split at hw
+          · rename_i hn
+            split at hw
+            · simp at hw; obtain ⟨rfl, rfl, _⟩ := hw; exact ⟨hn, hc⟩
+            · cases hw
+          · rename_i hd; exact ih hd hw
+          · split at hw <;> cases hw
+
+/-- lexical normal form of a component list relative to `cur`: drop empty and `.` components,
+`..` removes the last name -/
+def lexNorm : Path → List Name → Path
+  | cur, [] => cur
+  | cur, c :: rest =>
+    if c = "" ∨ c = "." then lexNorm cur rest
+    else if c = ".." then lexNorm cur.dropLast rest
+    else lexNorm (cur ++ [c]) rest
+
+/-- whatever a path resolves to sits at the lexical normal form of the path (no symbolic links) -/
+theorem walk_found_lexNorm {fs : Fs} {comps : List Name} :
+    ∀ {cur p e}, walk fs cur comps = .found p e → p = lexNorm cur comps := by
+  induction comps with
+  | nil => intro cur p e hw; simp [walk] at hw; simp [lexNorm, hw.1]
+  | cons c rest ih =>
+    intro cur p e hw
+    rw [walk] at hw
+    rw [lexNorm]
+    split at hw
+    · rename_i hc; simp only [hc, if_true]; exact ih hw
+    · rename_i hc
+      simp only [hc, if_false]
+      split at hw
+      · rename_i hdd
+        simp only [hdd, if_true]
+        split at hw
+        · cases hw
+        · exact ih hw
+      · rename_i hdd
+        simp only [hdd, if_false]
+        split at hw
+        · cases hw
+        · split at hw
+          · split at hw <;> cases hw
+          · exact ih hw
+          · split at hw
+            · rename_i hr; simp at hw; subst hr; simp [lexNorm, hw.1]
+            · cases hw
+
+theorem resolve_found {fs : Fs} (h : WF fs) {cwd : Path} {s : String} {p : Path} {e : Entry}
+    (hr : resolve fs cwd s = .found p e) : get fs p = some e := by
+  unfold resolve at hr
+  split at hr
+  · cases hr
+  · split at hr
+    · exact walk_found h (get_nil fs) hr
+    · split at hr
+      · rename_i hc; exact walk_found h hc hr
+      · cases hr
+
+theorem resolve_missing {fs : Fs} (h : WF fs) {cwd : Path} {s : String} {par : Path} {n : Name}
+    {sl : Bool} (hr : resolve fs cwd s = .missing par n sl) :
+    get fs (par ++ [n]) = none ∧ get fs par = some .dir := by
+  unfold resolve at hr
+  split at hr
+  · cases hr
+  · split at hr
+    · exact walk_missing h (get_nil fs) hr
+    · split at hr
+      · rename_i hc; exact walk_missing h hc hr
+      · cases hr
+
+/-- the start directory and component list `resolve` walks -/
+theorem resolve_found_lexNorm {fs : Fs} {cwd : Path} {s : String} {p : Path} {e : Entry}
+    (hr : resolve fs cwd s = .found p e) :
+    p = lexNorm (if isAbs s then [] else cwd) (comps s) := by
+  unfold resolve at hr
+  split at hr
+  · cases hr
+  · split at hr
+    · rename_i ha; simp only [ha, if_true]; exact walk_found_lexNorm hr
+    · rename_i ha
+      split at hr
+      · simp only [ha]; exact walk_found_lexNorm hr
+      · cases hr
+
+/-! ## system calls: what a successful call did -/
+
+theorem mkdir_spec {fs fs' : Fs} (h : WF fs) {cwd : Path} {s : String}
+    (hm : mkdir fs cwd s = .ok fs') :
+    ∃ k, k ≠ [] ∧ get fs k = none ∧ get fs k.dropLast = some .dir ∧ fs' = set fs k .dir := by
+  unfold mkdir at hm
+  split at hm
+  · rename_i par n sl hr
+    obtain ⟨h1, h2⟩ := resolve_missing h hr
+    refine ⟨par ++ [n], by simp, h1, by simpa using h2, ?_⟩
+    cases hm; rfl
+  · cases hm
+  · cases hm
+
+theorem mkdir_wf {fs fs' : Fs} (h : WF fs) {cwd : Path} {s : String}
+    (hm : mkdir fs cwd s = .ok fs') : WF fs' := by
+  obtain ⟨k, hk, _, hp, rfl⟩ := mkdir_spec h hm
+  exact wf_set_dir h hk hp
+
+theorem rmdir_spec {fs fs' : Fs} (h : WF fs) {cwd : Path} {s : String}
+    (hm : rmdir fs cwd s = .ok fs') :
+    ∃ k, k ≠ [] ∧ get fs k = some .dir ∧ children fs k = [] ∧ fs' = erase fs k := by
+  unfold rmdir at hm
+  split at hm
+  · cases hm
+  · split at hm
+    · cases hm
+    · split at hm
+      · rename_i p hr
+        split at hm
+        · cases hm
+        · rename_i hch
+          split at hm
+          · cases hm
+          · rename_i hp
+            refine ⟨p, hp, resolve_found h hr, by simpa using hch, ?_⟩
+            cases hm; rfl
+      · cases hm
+      · cases hm
+      · cases hm
+
+theorem rmdir_wf {fs fs' : Fs} (h : WF fs) {cwd : Path} {s : String}
+    (hm : rmdir fs cwd s = .ok fs') : WF fs' := by
+  obtain ⟨k, hk, _, hc, rfl⟩ := rmdir_spec h hm
+  exact wf_erase h hk ((children_nil_iff fs k).1 hc)
+
+theorem file_ne_root {fs : Fs} {p : Path} {b : List UInt8} (hg : get fs p = some (.file b)) : p ≠ [] := by
+  intro hp; subst hp; simp [get] at hg
+
+theorem unlink_spec {fs fs' : Fs} (h : WF fs) {cwd : Path} {s : String}
+    (hm : unlink fs cwd s = .ok fs') :
+    ∃ k b, k ≠ [] ∧ get fs k = some (.file b) ∧ fs' = erase fs k := by
+  unfold unlink at hm
+  split at hm
+  · rename_i p b hr
+    have hg := resolve_found h hr
+    refine ⟨p, b, file_ne_root hg, hg, ?_⟩
+    cases hm; rfl
+  · cases hm
+  · cases hm
+  · cases hm
+
+theorem unlink_wf {fs fs' : Fs} (h : WF fs) {cwd : Path} {s : String}
+    (hm : unlink fs cwd s = .ok fs') : WF fs' := by
+  obtain ⟨k, b, hk, hg, rfl⟩ := unlink_spec h hm
+  exact wf_erase h hk (no_children_of_not_dir h (by rw [hg]; simp))
+
+/-- what `rename` / `copy` write: a file at a place whose parent is a directory and which is not
+a directory itself -/
+def Writable (fs : Fs) (pd : Path) : Prop :=
+  pd ≠ [] ∧ get fs pd ≠ some .dir ∧ get fs pd.dropLast = some .dir
+
+theorem rename_spec {fs fs' : Fs} (h : WF fs) {cwd : Path} {a b : String}
+    (hm : rename fs cwd a b = .ok fs') :
+    ∃ ps bytes, get fs ps = some (.file bytes) ∧
+      (fs' = fs ∨ ∃ pd, pd ≠ ps ∧ Writable fs pd ∧ fs' = set (erase fs ps) pd (.file bytes)) := by
+  unfold rename at hm
+  split at hm
+  · rename_i ps bytes hra
+    refine ⟨ps, bytes, resolve_found h hra, ?_⟩
+    split at hm
+    · rename_i pd x hrb
+      have hgd := resolve_found h hrb
+      split at hm
+      · left; cases hm; rfl
+      · rename_i hne
+        right
+        refine ⟨pd, hne, ⟨file_ne_root hgd, by rw [hgd]; simp, h pd _ hgd⟩, ?_⟩
+        cases hm; rfl
+    · cases hm
+    · rename_i par n sl hrb
+      obtain ⟨h1, h2⟩ := resolve_missing h hrb
+      split at hm
+      · cases hm
+      · right
+        refine ⟨par ++ [n], ?_, ⟨by simp, by rw [h1]; simp, by simpa using h2⟩, ?_⟩
+        · intro he; rw [he, resolve_found h hra] at h1; cases h1
+        · cases hm; rfl
+    · cases hm
+  · cases hm
+  · cases hm
+  · cases hm
+
+theorem copy_spec {fs fs' : Fs} (h : WF fs) {cwd : Path} {a b : String}
+    (hm : copy false fs cwd a b = .ok fs') :
+    ∃ ps bytes, get fs ps = some (.file bytes) ∧
+      (fs' = fs ∨ ∃ pd, pd ≠ ps ∧ Writable fs pd ∧ fs' = set fs pd (.file bytes)) := by
+  unfold copy at hm
+  split at hm
+  · rename_i ps bytes hra
+    refine ⟨ps, bytes, resolve_found h hra, ?_⟩
+    split at hm
+    · rename_i pd x hrb
+      have hgd := resolve_found h hrb
+      split at hm
+      · left; simp at hm; exact hm.symm
+      · rename_i hne
+        right
+        refine ⟨pd, hne, ⟨file_ne_root hgd, by rw [hgd]; simp, h pd _ hgd⟩, ?_⟩
+        cases hm; rfl
+    · cases hm
+    · rename_i par n sl hrb
+      obtain ⟨h1, h2⟩ := resolve_missing h hrb
+      split at hm
+      · cases hm
+      · right
+        refine ⟨par ++ [n], ?_, ⟨by simp, by rw [h1]; simp, by simpa using h2⟩, ?_⟩
+        · intro he; rw [he, resolve_found h hra] at h1; cases h1
+        · cases hm; rfl
+    · cases hm
+  · cases hm
+  · cases hm
+  · cases hm
+
+theorem rename_wf {fs fs' : Fs} (h : WF fs) {cwd : Path} {a b : String}
+    (hm : rename fs cwd a b = .ok fs') : WF fs' := by
+  obtain ⟨ps, bytes, hg, hc⟩ := rename_spec h hm
+  rcases hc with rfl | ⟨pd, hne, ⟨hpd, hnd, hpar⟩, rfl⟩
+  · exact h
+  · have hps := file_ne_root hg
+    have h1 : WF (erase fs ps) := wf_erase h hps (no_children_of_not_dir h (by rw [hg]; simp))
+    apply wf_set_file h1 hpd
+    · rw [get_erase _ _ _ hps]
+      have : pd.dropLast ≠ ps := by intro he; rw [he, hg] at hpar; cases hpar
+      simp [this, hpar]
+    · rw [get_erase _ _ _ hps]; simp [hne, hnd]
+
+theorem copy_wf {fs fs' : Fs} (h : WF fs) {cwd : Path} {a b : String}
+    (hm : copy false fs cwd a b = .ok fs') : WF fs' := by
+  obtain ⟨ps, bytes, _, hc⟩ := copy_spec h hm
+  rcases hc with rfl | ⟨pd, _, ⟨hpd, hnd, hpar⟩, rfl⟩
+  · exact h
+  · exact wf_set_file h hpd _ hpar hnd
+
 end Scryer.FsTree
